@@ -626,3 +626,38 @@ PROPS["C15"] = {
     "assumptions": GW_ASSUME + ["sessions are created through the add-only verif hook that mirrors ListenAndServe's per-connection "
                                 "closure; the UDP demultiplexing by peer address (pion/udp) is not exercised"],
 }
+
+
+def unit_c25_runs(ctx):
+    """C25 reads the crash observations (X PANIC lines -> FAIL C25) of the stateful runs."""
+    lines = []
+    inputs = None
+    for u in (unit_gw, unit_client, unit_gw_multi):
+        r = u(ctx)
+        if r.get("error"):
+            return r
+        for l in r["lines"]:
+            if l.startswith("FAIL C15 in-concurrent-session C25"):
+                lines.append("FAIL C25 " + l[len("FAIL C15 in-concurrent-session C25 "):])
+            elif l.startswith("MISMATCH") and "PANIC" not in l and "MISSING" not in l:
+                continue
+            elif not l.startswith("FAIL") or l.startswith("FAIL C25 "):
+                lines.append(l)
+        inputs = inputs or r.get("inputs")
+    return {"lines": lines, "inputs": inputs}
+
+
+PROPS["C25"] = {
+    "theorems": ["C25_gateway_never_crashes", "C25_client_never_crashes"],
+    "drivers": ["drv_gw.test", "drv_client.test", "skeleton", "drv_codec"],
+    "units": [Unit("stateful-runs", unit_c25_runs), Unit("panic-site-census", unit_skeleton(r"^PANIC ")),
+              Unit("drv_codec", unit_codec)],
+    "mismatch_kinds": [r"PANIC", r"MISSING-", r"SKELETON", r"decode class"],
+    "rule": GW_RULE + "; " + CL_RULE + "; three concurrent sessions per gateway (C15 runs); every history runs in a process "
+            "whose crash is recorded with the history that caused it; malformed and adversarial packets (random type bytes, "
+            "boundary lengths, packets illegal in the state, stale and duplicate acknowledgements) are part of every profile; the "
+            "census of panic-capable expressions of gateway/, client/, transactions/, util/ is regenerated from source",
+    "assumptions": GW_ASSUME + CL_ASSUME + ["the justifications of coq/panic_sites.md for the unchecked assertions / index "
+                                            "expressions outside the codec (constructor type invariants, paho NewControlPacket)",
+                                            "nil-pointer dereferences are not recognisable syntactically and are covered only by the runs"],
+}
